@@ -2032,6 +2032,17 @@ def c10(tier):
         behs = mt_generate(rep, num, 34 if thorough else 30, SEED * 17 + j, rc="rc" in vs, ao="ao" in vs, fine=False,
                            shapes="ShapesWide", maxids=14, maxcommits=10, maxlocks=0, nt=3, nv=2)
         generic_replay(rep, "mtree-replay", behs, {"seed": SEED + j, "variant": var}, "c10_%d" % j, "mtree-replay")
+    # wide sharing (ShapesFan / ScriptFan): a tree of 3 x 255 leaves, every leaf referenced again by a second tree in ONE
+    # transaction (765 reference counts change in one log record; the table has 65 536 chunks of 32 entries, so some
+    # chunk takes two of the changes with probability 99 %), clean restart, then both trees dereferenced: counts and
+    # storage compared at every restart
+    fan = mt_scripted(rep, "ScriptFan", limit=2 if not thorough else 8, rc=False, fine=False, shapes="ShapesFan", maxids=800,
+                             maxcommits=4, maxlocks=0, maxdefers=1, nt=2, nv=1, pipes=())
+    if not fan or not any(len(e["tx"]["tree"].get("incs", [])) >= 700 for b in fan for e in b["steps"] if e["a"] == "Commit"):
+        raise ToolError("no scripted behaviour with a transaction that changes 700 reference counts: vacuous")
+    rep.extra["wide_sharing_behaviours"] = len(fan)
+    for var in ["", "direct"] + (["rc"] if thorough else []):
+        generic_replay(rep, "mtree-replay", fan, {"seed": SEED + 33, "variant": var}, "c10fan%s" % var[:1], "mtree-replay")
     # implementation -> specification
     for j, var in enumerate(["", "rc", "direct", "ao", "big"] + (["rc,direct", "", "rc"] if thorough else [])):
         mt_record_and_validate(rep, var, 3000 if thorough else 400, SEED * 41 + j, crash=2, nt=6 if thorough else 5,
